@@ -497,6 +497,9 @@ pub fn gen_workspace(r: &mut Rng, lo: usize, hi: usize) -> Vec<FileSpec> {
 pub struct Cfg {
     /// 0: default, 1: Lua 5.1, 2: LuaJIT, 3: strict flags flipped, 4: diagnostics disabled subset
     pub variant: u32,
+    /// install the configuration as a modified clone of the one in force (see `World::install`)
+    #[serde(default, skip_serializing_if = "std::ops::Not::not")]
+    pub by_clone: bool,
 }
 
 pub fn emmyrc_for(cfg: &Cfg, root: &std::path::Path, with_lib: bool) -> emmylua_code_analysis::Emmyrc {
